@@ -444,8 +444,15 @@ def gen_hand_recipe(rng: random.Random, semiring: str) -> dict[str, Any]:
                             acts=["softplus", "sigmoid", "exp"])
             if sd["tp"]["init"]["type"] in ("const", "dirichlet"):
                 sd["tp"]["init"] = {"type": "uniform", "a": -1.0, "b": 1.0}
+                sd["tp"].pop("constparam", None)
             ms["layer"] = "gaussian"
             ms["stddev"] = sd
+            if rng.random() < 0.4:
+                ms["log_partition"] = _gen_pspec(rng, (K,), positive=False, dtype="real",
+                                                 learnable=g_learn, acts=["none"])
+                if ms["log_partition"]["tp"]["init"]["type"] == "dirichlet":
+                    ms["log_partition"]["tp"]["init"] = {"type": "normal", "mean": 0.0, "std": 0.5}
+                    ms["log_partition"]["tp"].pop("constparam", None)
             inputs.append(ms)
     if rng.random() < 0.3 and not gaussian:
         v = rng.randrange(nv)
